@@ -88,6 +88,19 @@ func (t *Tr) cmt2(items []jen.Code, endOK bool) []jen.Code {
 		t.ncomments++
 		body := CommentTexts[t.crnd.Intn(len(CommentTexts))]
 		marker := fmt.Sprintf("CM%dQ", t.ncomments)
+		if t.crnd.Intn(12) == 0 {
+			// the documented raw forms: text that already is a comment is rendered as it is
+			switch t.crnd.Intn(4) {
+			case 0:
+				return "/* " + marker + " inline */"
+			case 1:
+				return "/* " + marker + " inline */" + []string{" ", "\t", "  "}[t.crnd.Intn(3)]
+			case 2:
+				return "// " + marker + " raw line"
+			default:
+				return "/*\n" + marker + " raw\nblock\n*/"
+			}
+		}
 		if strings.HasPrefix(body, "\n") {
 			return "\n" + marker + " " + body[1:] // keep the leading newline leading
 		}
@@ -116,17 +129,27 @@ func (t *Tr) cmt2(items []jen.Code, endOK bool) []jen.Code {
 	mk := func(tx string) *jen.Statement { return on(&jen.Statement{}, tx) }
 	out := make([]jen.Code, 0, len(items)+2)
 	for _, it := range items {
+		var lead *jen.Statement
 		if t.crnd.Intn(6) == 0 {
 			t.hit("comment.own")
 			tx := text()
 			t.Comments = append(t.Comments, tx)
-			out = append(out, mk(tx))
+			if st, ok := it.(*jen.Statement); ok && st != nil && t.crnd.Intn(3) == 0 {
+				// the usual idiom: the comment leads the statement it describes, separated by Line()
+				lead = mk(tx).Line()
+				t.hit("comment.lead")
+			} else {
+				out = append(out, mk(tx))
+			}
 		}
 		if st, ok := it.(*jen.Statement); ok && endOK && t.crnd.Intn(6) == 0 {
 			t.hit("comment.end")
 			tx := text()
 			t.Comments = append(t.Comments, tx)
 			on(st, tx)
+		}
+		if lead != nil {
+			it = lead.Add(it)
 		}
 		out = append(out, it)
 	}
